@@ -11,6 +11,7 @@ Reference: models/issues_ref.py.
 """
 from typing import List
 from vp import reg as R
+from hed.validator.util.char_util import CharValidator
 from vp import astpatch
 from vp.stubs import NOSCHEMA
 from models import issues_ref as M
@@ -107,6 +108,44 @@ def _word(t):
         if not (97 <= ord(c) <= 122):      # ord(): one branch; `"a" <= c` on a symbolic character forks three ways
             return False
     return True
+
+
+def invalid_char_offsets(t: str, allow: bool) -> bool:
+    """
+    pre: 1 <= len(t) <= R.N(3)
+    pre: _one_tag_text(t)
+    pre: R.ascii_printable(t)
+    pre: all(c != ":" for c in t)
+    pre: R.env_int("VP_LEN") is None or len(t) == R.env_int("VP_LEN")
+    post: _
+    """
+    s = "(" + t + ")"
+    h = HedString(s, NOSCHEMA)
+    tags = h.get_all_tags()
+    if len(tags) != 1 or tags[0].span != (1, 1 + len(t)):
+        return False
+    tag = tags[0]
+    issues = CharValidator(modern_allowed_char_rules=True).check_tag_invalid_chars(tag, allow)
+    _handler(h).add_context_and_filter(issues)
+    typ, code, sev, xkw, parts = M.SUBTAG[1]
+    n = 0
+    for k in range(len(t)):
+        o = ord(t[k])
+        ok = 48 <= o <= 57 or 65 <= o <= 90 or 97 <= o <= 122 or o == 45 or o == 95 or o == 47 or (allow and o == 35)
+        if ok:
+            continue
+        # the k-th character is not allowed in a tag name: the next issue points at exactly it
+        if n >= len(issues):
+            return False
+        iss = issues[n]
+        n += 1
+        if not M.well_formed(iss) or iss["code"] != code or iss["severity"] != sev:
+            return False
+        if iss.get("char_index") != 1 + k or iss.get("char_index_end") != 2 + k:
+            return False
+        if iss["message"] != M.render(parts, t, t[k], "") + M.suffix(1 + k, 2 + k):
+            return False
+    return n == len(issues)
 
 
 def subtag_messages(t: str, i: int, j: int) -> bool:
@@ -640,6 +679,21 @@ HARNESSES = [
         stubs=[_STUB_PARSE, _STUB_NS],
         outside="strings longer than the bound; tags rewritten in place (tag.tag set): there the offsets cover the "
                 "whole tag by design; index pairs outside the tag (callers' arithmetic is C03/C01's subject)"),
+    R.H("invalid_char_offsets", ["hed.validator.util.char_util.CharValidator.check_tag_invalid_chars",
+                                 "hed.validator.util.char_util.CharValidator._check_invalid_chars"] + _T_SUB,
+        quick=R.tier(cells=R.int_cells("VP_LEN", 1, 3), env={"VP_N": 3}, timeout=400,
+                     bound="every printable-ASCII tag text t (no delimiter, colon or outer blank), 1 <= len(t) <= 3, "
+                           "in the annotation (t); placeholders allowed or not"),
+        thorough=R.tier(cells=R.int_cells("VP_LEN", 1, 4), env={"VP_N": 4}, timeout=1800, path_timeout=60,
+                        bound="same with len(t) <= 4"),
+        what="the caller's index arithmetic: the tag-name character check reports one CHARACTER_INVALID issue per "
+             "character outside [A-Za-z0-9-_/] (and '#' when placeholders are allowed), in order, each with offsets "
+             "selecting exactly that occurrence (also when the same character occurs twice) and a message quoting "
+             "it with one location suffix",
+        oracle="inline character predicate + models/issues_ref.py (SUBTAG message parts, suffix)",
+        stubs=[_STUB_PARSE, _STUB_NS],
+        outside="non-ASCII characters (isalnum tables); the extension/value character check with its value-class "
+                "character sets (C11); namespace prefixes (':' excluded)"),
     R.H("subtag_messages", _T_SUB + ["hed.errors.error_messages.val_error_tag_extended",
                                      "hed.errors.error_messages.val_error_invalid_tag_character",
                                      "hed.errors.error_messages.val_error_INVALID_VALUE_CLASS_CHARACTER",
